@@ -1,5 +1,5 @@
-"""C18 — Path agrees with the filesystem (the statically visible part) and DirectoryVisitor restores the cwd (PA.1-PA.5)."""
-import itertools
+"""C18 — Path agrees with the filesystem (the statically visible part) and DirectoryVisitor restores the cwd (PA.1-PA.6)."""
+import itertools, re
 from facts import Node, strip_targs, Inconclusive
 from symex import Lin, Unknown, Ref, Sym, Exec, as_lin
 from evdom import EvDomain, Ev, run_paths
@@ -62,6 +62,7 @@ def run(facts, rep, tier):
     rep.rule('PA.2', 'listChildren: exactly one entry is recorded per readdir result except exactly the names "." and ".." (filter evaluated on an exhaustive table of names); documented exceptions')
     rep.rule('PA.3', 'size: a file is measured by seek(END)+tell on a stream that is closed afterwards; a directory is the sum of join(*this, child).size() over every child; isFile <=> exists && !isDirectory')
     rep.rule('PA.4', 'join (evaluated on an exhaustive table of short strings over the separator alphabet): empty p1 -> p2; absolute p2 (leading separator on this platform) -> p2; otherwise p1, one separator iff p1 does not end with one, p2')
+    rep.rule('PA.6', 'getWorkingDirectory(): the buffer handed to getcwd is at least PATH_MAX bytes (every working directory the process can be in fits) and not smaller than the length passed')
     rep.rule('PA.5', 'DirectoryVisitor: visit() saves getWorkingDirectory() before setWorkingDirectory(m_dir); the destructor restores the saved directory whenever one was saved')
     rep.assume('the operating system and libc (fopen / opendir / readdir / chdir / getcwd) behave as documented; POSIX build')
     rep.note('not decided: agreement with the real filesystem, and the mutual consistency of getPathName / getParentDirectory for every path string (string algebra with npos arithmetic; no finite abstraction claimed)')
@@ -303,6 +304,46 @@ def run(facts, rep, tier):
                     else: rep.inconclusive('PA.5', 'the destructor restores the saved working directory', sets[0].site, f'the directory passed to setWorkingDirectory ({v0}) was not followed')
                 else:
                     rep.check(not sets, 'PA.5', 'nothing is restored when nothing was saved', dt[0].shortloc(), 'chdir to an empty path', key='PA.5|dtor-none', fn=dt[0].name)
+    # ---- PA.6 ---------------------------------------------------------------------------------------------------------------------------------
+    gw = facts.fn(f'{P}::getWorkingDirectory')
+    if gw is None: rep.anchor_missing(f'{P}::getWorkingDirectory', 'not found')
+    else:
+        def const_of(a):
+            while a is not None and a.k in ('cast', 'paren') and a.n('sub') is not None: a = a.n('sub')
+            if a is None: return None
+            if a.k == 'int': return a.v
+            if a.k == 'sizeof': return a.d.get('const', a.d.get('v'))
+            return None
+        seen_fns = set(); work = [gw]; n6 = 0
+        while work:
+            g = work.pop()
+            if g.name in seen_fns: continue
+            seen_fns.add(g.name)
+            for n in g.nodes():
+                if n.k != 'call': continue
+                q = strip_targs(n.calleeq or '')
+                if q == 'getcwd' and len(n.ns('args')) == 2:
+                    n6 += 1
+                    buf, ln = n.ns('args')
+                    c = const_of(ln)
+                    b0 = buf
+                    while b0 is not None and b0.k in ('cast', 'paren') and b0.n('sub') is not None: b0 = b0.n('sub')
+                    m_ = re.search(r'\[(\d+)\]$', (b0.d.get('decltype') or b0.d.get('type') or '') if b0 is not None else '')
+                    cap = int(m_.group(1)) if m_ else None
+                    inst = f'{g.name}: getcwd(buffer, {c if c is not None else ln.text()[:30]})'
+                    if c is None: rep.inconclusive('PA.6', inst, n.shortloc(), 'the length handed to getcwd is not a compile-time constant')
+                    elif cap is not None and cap < c: rep.violation('PA.6', inst, n.shortloc(), f'getcwd may write {c} bytes into a buffer of {cap}', key='PA.6|overflow', fn=g.name)
+                    elif c < PATH_MAX: rep.violation('PA.6', inst, n.shortloc(), f'the buffer holds {c} bytes but a working directory may be up to PATH_MAX = {PATH_MAX} bytes long: from a directory whose absolute path is longer, getcwd fails (ERANGE) and the directory that is saved - and restored later - is not the one the process was in', key='PA.6|short', fn=g.name)
+                    else: rep.ok('PA.6', inst + f' >= PATH_MAX ({PATH_MAX})', n.shortloc())
+                elif q in ('get_current_dir_name', 'std::filesystem::current_path'):
+                    n6 += 1; rep.ok('PA.6', f'{g.name}: {q}() has no length limit', n.shortloc())
+                elif n.callee_in_root and n.callee:
+                    h = facts.fn(n.callee)
+                    if h is not None: work.append(h)
+        if n6 == 0: rep.inconclusive('PA.6', 'getWorkingDirectory()', gw.shortloc(), 'no getcwd / get_current_dir_name / std::filesystem::current_path call found: how the working directory is read is not recognised')
+
+
+PATH_MAX = 4096        # <linux/limits.h> of the build platform (what FILENAME_MAX expands to in glibc)
 
 
 def _eval_with_member(ev, cond, s):
